@@ -45,6 +45,7 @@ def oracle():
     return _oracle
 
 
+@common.guarded("C10")
 def judge(text, also_loads=True):
     """None if the implementation behaves as C10 demands on `text`, else (key-suffix, detail)"""
     o = oracle()
